@@ -12,6 +12,7 @@ import DC.Model.Cache
 import DC.Model.Check
 import DC.Model.Memo
 import DC.Model.Layers
+import DC.Model.Recipes
 
 open DC
 
@@ -405,6 +406,59 @@ def answerMc (st : Memo.Store Nat) (kv : KV) : Memo.Store Nat × String :=
   | some x => x
   | none => (st, "bad-op mc")
 
+
+/-! ### recipes protocol -/
+
+open Recipes in
+def parseEv (t : String) : Option Ev :=
+  if t.front == 'a' then (t.drop 1).toString.toNat?.map Ev.acquire
+  else if t.front == 'r' then (t.drop 1).toString.toNat?.map Ev.release
+  else none
+
+open Recipes in
+def answerRk (kv : KV) : String :=
+  match (splitList (kv.getD "evs" "-") ",").mapM parseEv with
+  | none => "bad-op rk"
+  | some evs =>
+    let bit (b : Bool) : String := if b then "1" else "0"
+    match kv.getD "kind" "" with
+    | "lock" =>
+      let r := evs.foldl (fun (acc : LockSys × List String) e => let (s, ok) := acc.1.step e; (s, acc.2 ++ [bit ok])) ({}, [])
+      "rk " ++ ",".intercalate r.2
+    | "rlock" =>
+      let r := evs.foldl (fun (acc : RLockSys × List String) e => let (s, ok) := acc.1.step e; (s, acc.2 ++ [bit ok])) ({}, [])
+      "rk " ++ ",".intercalate r.2
+    | "sem" =>
+      let n := (kv.getD "limit" "1").toNat?.getD 1
+      let r := evs.foldl (fun (acc : SemSys × List String) e => let (s, ok) := acc.1.step e; (s, acc.2 ++ [bit ok]))
+        ({ st := { limit := n, free := n } }, [])
+      "rk " ++ ",".intercalate r.2
+    | _ => "bad-op rk-kind"
+
+open Recipes in
+def answerTb (kv : KV) : String :=
+  let r : Option String := do
+    let count ← (kv.getD "count" "1").toNat?
+    let seconds ← (kv.getD "seconds" "1").toNat?
+    let start ← (kv.getD "start" "0").toInt?
+    let times ← (splitList (kv.getD "times" "-") ",").mapM (·.toInt?)
+    let res := times.foldl (fun (acc : Bucket × List String) t =>
+      match acc.1.attempt t with
+      | (b, none) => (b, acc.2 ++ ["p"])
+      | (b, some d) => (b, acc.2 ++ [s!"d{d}"])) (Bucket.init count seconds start, [])
+    pure (",".intercalate res.2)
+  match r with
+  | some s => "tb " ++ s
+  | none => "bad-op tb"
+
+open Recipes in
+def answerAv (kv : KV) : String :=
+  let evs := (splitList (kv.getD "evs" "-") ",").mapM (fun t =>
+    if t == "p" then some AvgEv.pop else if t.front == 'a' then (t.drop 1).toString.toInt?.map AvgEv.add else none)
+  match evs with
+  | none => "bad-op av"
+  | some evs => let s := AvgSt.run {} evs; s!"av {s.total} {s.count}"
+
 structure DState where
   cache : Cache := {}
   memo : Memo.Store Nat := []
@@ -628,6 +682,9 @@ def answer (st : DState) (line : String) : DState × String :=
   | ("lcfg", _) :: rest => answerLayer st "lcfg" rest
   | ("lop", _) :: rest => answerLayer st "lop" rest
   | ("lstate", _) :: rest => answerLayer st "lstate" rest
+  | ("rk", _) :: rest => (st, answerRk rest)
+  | ("tb", _) :: rest => (st, answerTb rest)
+  | ("av", _) :: rest => (st, answerAv rest)
   | ("ck", _) :: rest => (st, answerCk rest)
   | ("mk", _) :: rest => (st, answerMk rest)
   | ("mc", _) :: rest => let (m, a) := answerMc st.memo rest; ({ st with memo := m }, a)
